@@ -160,8 +160,16 @@ void stripe_free(stripe_t *s) {
 }
 
 /* ------------------------------------------------------------ guarded calls */
+/* a note the child leaves about what it is doing, readable by the parent after a crash */
+char *g_progress = NULL;
+
 void guarded(guard_fn fn, void *arg) {
     fflush(stdout);
+    if (!g_progress) {
+        g_progress = mmap(NULL, 4096, PROT_READ | PROT_WRITE, MAP_SHARED | MAP_ANONYMOUS, -1, 0);
+        if (g_progress == MAP_FAILED) g_progress = NULL;
+    }
+    if (g_progress) g_progress[0] = 0;
     int pfd[2];
     if (pipe(pfd) != 0) { res_end("harness-error pipe"); return; }
     pid_t pid = fork();
@@ -183,6 +191,9 @@ void guarded(guard_fn fn, void *arg) {
     if (WIFEXITED(st) && WEXITSTATUS(st) == 0 && got > 0) {
         while (got && (buf[got - 1] == '\n')) buf[--got] = 0;
         res_end("%s", buf);
+    } else if (g_progress && g_progress[0]) {
+        g_progress[200] = 0;
+        res_end("crash %s", g_progress);
     } else {
         res_end("crash");
     }
